@@ -439,7 +439,7 @@ def c19_config(rng):
 
 def plan(tier):
     if tier == "thorough":
-        return dict(cases=960, shards=16, timeout=6000, min_nontrivial=400, case_alarm=1500)
+        return dict(cases=320, shards=16, timeout=6000, min_nontrivial=200, case_alarm=1500)
     return dict(cases=80, shards=16, timeout=560, min_nontrivial=60, case_alarm=400)
 
 
@@ -504,7 +504,7 @@ def run_case(index, rng, tier):
     elif tier == "thorough" and index % 12 == 0:
         ks = list(range(1, n_steps + 1, 1 if n_steps < 400 else 2))
     else:
-        m = 10 if tier == "quick" else 24
+        m = 10 if tier == "quick" else 16
         ks = sorted({max(1, int(n_steps * (i + rng.random()) / m)) for i in range(m)})
     for k in ks:
         r = one(k)
